@@ -303,8 +303,11 @@ def main(argv=None):
         stepsweep = []
         for sname in ("idle", "stor_retr"):
             for sd in seeds[:2]:
-                for k in range(1, 140):
-                    stepsweep.append({"script": sname, "seed": sd * 100 + 77, "cut": "server_close", "k": k, "unit": "step", "net": {"latency": [0.0, 0.0], "send_delay": 0.0, "accept_delay": [0.0, 0.0]}})
+                for k in range(1, 140 if sname == "idle" else 170):
+                    # (stor_retr: far enough to cover the first EPSV - the listener is being opened
+                    # when the session is cancelled - for Server.close() and for a vanishing peer)
+                    for cut in (("server_close",) if sname == "idle" else ("server_close", "vanish_rst", "ctl_fin")):
+                        stepsweep.append({"script": sname, "seed": sd * 100 + 77, "cut": cut, "k": k, "unit": "step", "fs_delay": None, "small_pipe": False, "net": {"latency": [0.0, 0.0], "send_delay": 0.0, "accept_delay": [0.0, 0.0], "seg_mode": "whole"}})
         # somebody connects while Server.close() is taking the sessions down (a user manager whose
         # notify_logout suspends makes that take a while): close() at every event of three scripts,
         # newcomers 0 .. 0.4 s after it started
